@@ -1,6 +1,6 @@
 //! C19: xargs exit status. Input {outs:[..]} (per-invocation scripted outcomes: 0..255 exit
 //! status, 1000+s killed by signal s) with -n1 and one argument per outcome, or
-//! {kind:"notfound"|"notexec"|"notexec_dir"|"notexec_notdir"|"notexec_loop"|"badopt"|"quote"|"toolong"}.
+//! {kind:"notfound"|"notexec"|"notexec_dir"|"notexec_notdir"|"notexec_loop"|"badopt"|"quote".."quote5"|"toolong"}.
 //! Observation: {started, exit}
 use super::Prop;
 use crate::util::*;
@@ -85,6 +85,10 @@ impl Prop for P19 {
                     "badopt3" => (vec!["-L", "-3"], b"a b\n"),
                     "quote" => (vec!["-n", "1"], b"a 'b c\n"),
                     "quote2" => (vec![], b"x \"unterminated\n"),
+                    // the opening quote is the very last byte of the input: nothing, not even a blank, follows it
+                    "quote3" => (vec![], b"a b \""),
+                    "quote4" => (vec!["-r"], b"'"),
+                    "quote5" => (vec!["-n", "1"], b"a b\nc '"),
                     _ /* toolong */ => (vec!["-s", "200"], b"a aaaaaaaaaaaaaaaaaaaaaaaaaaaaaaaaaaaaaaaaaaaaaaaaaaaaaaaaaaaaaaaaaaaaaaaaaaaaaaaaaaaaaaaaaaaaaaaaaaaaaaaaaaaaaaaaaaaaaaaaaaaaaaaaaaaaaaaaaaaaaaaaaaaaaaaaaaaaaaaaaaaaaaaaaaaaaaaaaaaaaaaaaaaaaaaaaaaaaaaaaaaaaaaaaaaaaaaaaaaaaaaaaaaaaaaaaaaaaaaaaaaaaaaaaaaaaaa b\n"),
                 };
                 let sv = stdin.to_vec();
@@ -101,7 +105,7 @@ impl Prop for P19 {
 
     fn gen(&mut self, rng: &mut Rng, idx: usize, tier: &str) -> Value {
         if idx % 8 == 7 {
-            let k = *rng.pick(&["notfound", "notfound_norun", "notfound_quote", "notexec", "notexec_dir", "notexec_notdir", "notexec_loop", "badopt", "badopt2", "badopt3", "quote", "quote2", "toolong"]);
+            let k = *rng.pick(&["notfound", "notfound_norun", "notfound_quote", "notexec", "notexec_dir", "notexec_notdir", "notexec_loop", "badopt", "badopt2", "badopt3", "quote", "quote2", "quote3", "quote4", "quote5", "toolong"]);
             return json!({"kind": k});
         }
         let len = if idx % 10 == 0 { rng.below(if tier == "thorough" { 200 } else { 60 }) } else { rng.below(9) };
